@@ -469,7 +469,7 @@ def read_script(eng: Engine, ctx: Ctx, rid: str, gate: dict | None):
     asm = m.asm
     ctx.touch(func=asm.qualname)
     hdr_param = asm.params[1] if len(asm.params) > 1 else None
-    se = SymEval(eng.ce, asm, bind={hdr_param: gate["arg"]}, uid_base=100).run()
+    se = eng.symeval(asm.qualname, bind={hdr_param: gate["arg"]}, uid_base=100)
     reads = [e for e in se.effects if e.kind == "call" and is_self_call(e.term, m.prim.name)]
     loc = eng.loc(asm, asm.node)
 
@@ -891,7 +891,7 @@ def ubx_skip(eng: Engine, ctx: Ctx, rid: str, model: ReaderModel):
     fr = oracle("frames.json")["ubx"]
     f = eng.repo.func(eng.ubx_skipper)
     ctx.touch(func=f.qualname)
-    se = SymEval(eng.ce, f, uid_base=200).run()
+    se = eng.symeval(f.qualname, uid_base=200)
     reads = [e for e in se.effects if e.kind == "call" and is_self_call(e.term, model.prim.name)]
     loc = eng.loc(f, f.node)
     ctx.check(len(reads) == 2 and all(not e.guards and not e.loops for e in reads), rid, f.qualname, "number of requests", expected="2 unconditional requests", found=str(len(reads)), **loc)
@@ -945,7 +945,7 @@ def nmea_skip(eng: Engine, ctx: Ctx, rid: str, model: ReaderModel):
     lp = eng.repo.func(eng.line_primitive)
     ctx.touch(func=f.qualname)
     ctx.touch(func=lp.qualname)
-    se = SymEval(eng.ce, f, uid_base=300).run()
+    se = eng.symeval(f.qualname, uid_base=300)
     lines = [e for e in se.effects if e.kind == "call" and is_self_call(e.term, lp.name)]
     other = [e for e in se.effects if e.kind == "call" and is_self_call(e.term, model.prim.name)]
     ctx.check(len(lines) == 1 and not other and not lines[0].guards, rid, f.qualname, "requests", expected="one unconditional line request", found=f"{len(lines)} line, {len(other)} byte request(s)", **eng.loc(f, f.node))
